@@ -143,7 +143,7 @@ func init() {
 	register(&Property{
 		ID:    "C04",
 		Level: "exploration",
-		Rule: "PRNG chains of 1-8 leaf commands (out / exit-code functions vf0..vf7 / err / stdin-tagging function vtg) joined by ; newline && || and | -> pipelines, run at top level and as a function body, compared with a reference interpreter of the normal run mode; " +
+		Rule: "PRNG chains of 1-8 leaf commands (out / exit-code functions vf0..vf7 / err / stdin-tagging function vtg; in half of the chains some commands carry an argument sub-shell `${err tag}` whose stderr line shows whether the arguments of a skipped command were evaluated) joined by ; newline && || and | -> pipelines, run at top level and as a function body, compared with a reference interpreter of the normal run mode; " +
 			"a case in which a whole multi-stage pipeline is skipped by &&/|| is executed but not asserted (the statement is silent on what its later stages do); non-trivial = at least 2 operators and at least one && or ||; distinct by program text",
 		Assumptions: []string{"leaf commands out/err/return/<stdin>->set behave as documented (they are the observation channel)", "skipped multi-stage pipelines are not asserted"},
 		Check:       chainCheck("C04"),
@@ -155,7 +155,11 @@ func init() {
 			cases = append(cases, exhaustiveChains(x, x.Pick(3, 4))...)
 			for i := 0; i < n; i++ {
 				r := x.Rng("chain", i)
+				// half of the chains carry argument sub-shells with a visible side effect:
+				// a skipped command must not evaluate them either
+				chainSubEffects = i%2 == 1
 				units := genChain(r, 8, true)
+				chainSubEffects = false
 				wrapper := []string{"plain", "function"}[r.Intn(2)]
 				cases = append(cases, mkChainCase(fmt.Sprintf("c04-%d", i), "normal", wrapper, units))
 			}
